@@ -1,8 +1,8 @@
 package props
 
 import (
-	"os"
 	"fmt"
+	"os"
 	"path/filepath"
 	"regexp"
 	"sort"
@@ -183,7 +183,7 @@ func multiMembers() []multiMember {
 			files: []*fam.FileSpec{{Name: "a.json", ID: "https://example.com/a", Root: objSpec(&fam.Prop{Label: "c", Spec: comp, Required: true}, &fam.Prop{Label: "mine", Spec: own})},
 				{Name: "b.json", ID: "https://example.com/b", Root: objSpec(&fam.Prop{Label: "k", Spec: &fam.Spec{Kind: "boolean"}})}},
 			orders: [][]string{{"a.json"}, {"a.json", "b.json"}}, sameTypeKeys: []string{"next"},
-			outOf:  map[string]string{"a.json": "out.go", "b.json": "out.go"}, pkgOf: map[string]string{"out.go": "example.com/pkg/model"}})
+			outOf: map[string]string{"a.json": "out.go", "b.json": "out.go"}, pkgOf: map[string]string{"out.go": "example.com/pkg/model"}})
 	}
 	// a whole-file reference to a document that has NO root (definitions only): there is nothing to generate for it — the run must
 	// end with an error (expectErr), never with a panic
